@@ -23,8 +23,8 @@ Feed(e) == /\ pst' = EventApply(pst, e).p
            /\ pbad' = pbad \cup EventApply(pst, e).bad
 
 Boot == [K EXCEPT !.ready = [i \in 1..NT |-> HStep(i)]]
-H(t, c) == [w |-> "t", t |-> t, c |-> c, at |-> K.nh]
-HE(t, c) == [w |-> "e", t |-> t, c |-> c, at |-> K.nh]
+H(t, c) == [w |-> "t", t |-> t, c |-> c, at |-> K.nh, cyc |-> K.cycle]
+HE(t, c) == [w |-> "e", t |-> t, c |-> c, at |-> K.nh, cyc |-> K.cycle]
 ResOf(r) == IF ~IsExc(r) THEN "ok" ELSE IF IsCancel(r) THEN "cancelled" ELSE "error"
 
 ClientInit(t) ==
